@@ -94,6 +94,31 @@ def dispatch_fallthrough(ctx, qualname: str, param: str, what: str, known):
     return list(known)
 
 
+def check_grid_guard(ctx, wm: WeaverModel, rule='C20.1'):
+    """Weaver.interpolate(new_x=...) refuses a grid unless its first AND its last element equal those of x (decided as a predicate over the two
+    end-point equalities, whatever its syntactic form)"""
+    it = wm.cls.methods['interpolate']
+    mf_grid = wm.methods['interpolate']
+    rs = [e for e in mf_grid.raises if e.data.get('exc') == 'ValueError']
+    nx = mf_grid.params['new_x']
+    x = wm.fields['x']
+    from ..truth import equivalent
+    Ln = nx.length
+    want = P('not', P('and', P('==', nx.at(C(0)), x.at(C(0))), P('==', nx.at(Ln - C(1)), x.at(wm.Lw - C(1)))))
+    ok = False
+    for e in rs:
+        rel = [g for g in e.guard if any(isinstance(t, Num) and t.length is None and any(sym.ATOMS.head(a_) == 'el' and isinstance(sym.ATOMS.args(a_)[0], Ref)
+                                                                                      and sym.ATOMS.args(a_)[0].label == 'arg:new_x' for a_ in sym.all_atoms(t.r))
+                                         for t in walk_vals(g))]
+        if not rel:
+            continue
+        verdict, _ = equivalent(rel[0] if len(rel) == 1 else P('and', *rel), want)
+        if verdict:
+            ok = True
+    ctx.check(ok, rule, 'interpolation grid with different end points: ValueError unless the first AND the last element equal those of x',
+              f"{[[str(g)[:160] for g in e.guard] for e in rs]}", mf_grid.fi.loc(), mf_grid.fi.qualname, 'grid-ends')
+
+
 def check_guards(ctx, wm: WeaverModel):
     ctx.rule('C20.1', 'guard table: for each invalid-request class of the statement there is a comparison on the stated operands whose failing branch '
                       'raises the builtin ValueError, at the entry point or in a callee reached on every path')
@@ -149,9 +174,12 @@ def check_guards(ctx, wm: WeaverModel):
         ev = Evaluator(ctx.prog, inline=_c01_opaque(), opaque_kind=REPO_RESULT_KIND)
         ev.run_function(pfi, args=args)
         rs = [e for e in ev.events if e.kind == 'raise' and e.data.get('exc') == 'ValueError']
-        cnt = [e for e in rs if any(isinstance(g, P) and g.op == '<' and any(isinstance(a, Num) and a.r == Lx for a in g.args) for g in e.guard)]
+        given = args['fixed_points_in_x'] if mode == 'values' else args['fixed_points_indices_in_x']
+        glen = given.length            # the number of points as given (repetitions included)
+        cnt = [e for e in rs if any(isinstance(g, P) and g.op == '<' and len(g.args) == 2 and isinstance(g.args[0], Num) and isinstance(g.args[1], Num)
+                                    and g.args[0].r == Lx and g.args[1].r == glen for g in e.guard)]
         mem = [e for e in rs if any(isinstance(g, P) and g.op == 'not' and isinstance(g.args[0], P) and g.args[0].op == '==' for g in e.guard)]
-        ctx.check(bool(cnt), 'C20.1', f"fixed points outnumbering the samples ({mode}): count guard against len(x) raises ValueError",
+        ctx.check(bool(cnt), 'C20.1', f"fixed points outnumbering the samples ({mode}): len(<points as given>) > len(x) raises ValueError",
                   f"{[[str(g)[:70] for g in e.guard] for e in rs]}", pfi.loc(), pfi.qualname, f"fp-count:{mode}")
         ctx.check(bool(mem), 'C20.1', f"fixed points that are not samples of x ({mode}): membership guard (resolved indices vs fixed points) raises ValueError",
                   f"{[[str(g)[:70] for g in e.guard] for e in rs]}", pfi.loc(), pfi.qualname, f"fp-member:{mode}")
@@ -222,25 +250,7 @@ def check_guards(ctx, wm: WeaverModel):
               mf.fi.qualname, 'slice-type')
     # 12 interpolation grid
     it = wm.cls.methods['interpolate']
-    mf_grid = wm.methods['interpolate']
-    rs = [e for e in mf_grid.raises if e.data.get('exc') == 'ValueError']
-    nx = mf_grid.params['new_x']
-    x = wm.fields['x']
-    from ..truth import equivalent
-    Ln = nx.length
-    want = P('not', P('and', P('==', nx.at(C(0)), x.at(C(0))), P('==', nx.at(Ln - C(1)), x.at(wm.Lw - C(1)))))
-    ok = False
-    for e in rs:
-        rel = [g for g in e.guard if any(isinstance(t, Num) and t.length is None and any(sym.ATOMS.head(a_) == 'el' and isinstance(sym.ATOMS.args(a_)[0], Ref)
-                                                                                      and sym.ATOMS.args(a_)[0].label == 'arg:new_x' for a_ in sym.all_atoms(t.r))
-                                         for t in walk_vals(g))]
-        if not rel:
-            continue
-        verdict, _ = equivalent(rel[0] if len(rel) == 1 else P('and', *rel), want)
-        if verdict:
-            ok = True
-    ctx.check(ok, 'C20.1', 'interpolation grid with different end points: ValueError unless the first AND the last element equal those of x',
-              f"{[[str(g)[:160] for g in e.guard] for e in rs]}", mf_grid.fi.loc(), mf_grid.fi.qualname, 'grid-ends')
+    check_grid_guard(ctx, wm)
     mf_none = wm.evaluate(it, overrides={'new_x': Const(None), 'n': Const(None)})
     ctx.check(any(e.data.get('exc') == 'ValueError' and not e.guard for e in mf_none.raises) and not mf_none.stores, 'C20.1',
               'neither n nor new_x: ValueError before any store', f"raises {[(e.data.get('exc'), len(e.guard)) for e in mf_none.raises]}; stores {len(mf_none.stores)}",
